@@ -55,6 +55,23 @@ def gen_cases(tier, rng):
                 if v.startswith('-') and w[0] in ('-n', '--num'):
                     continue          # a separate word with a leading dash is not a value
                 cases.append('H:f=0 arg:n,number:%s: arg:f:b0:init=0 %s exp:b0=0;%s=%s' % (slot, A.argv_tok(w), slot, v))
+    # floating-point destinations (outside the model: judged by the intended value, printed as a hexadecimal
+    # floating-point number so that the comparison is exact)
+    def c_hex(x):
+        h = float(x).hex()
+        sign = '-' if h.startswith('-') else ''
+        h = h.lstrip('-')
+        mant, _, ex = h.partition('p')
+        if '.' in mant:
+            mant = mant.rstrip('0').rstrip('.')
+        return sign + mant + 'p' + ex
+    for v in ('1.5', '0.1', '-2.25', '1e10', '-1.5e-7', '.5', '5.', '0', '-0.0', '1e308', '4.9e-324', '3.141592653589793',
+              '123456789012345678', '1E3', '+7.25'):
+        for w in (['-x', v], ['--ratio=' + v], ['--rat', v], ['-x' + v]):
+            if v.startswith('-') and w[0] in ('-x', '--rat'):
+                continue
+            cases.append('H:f=0 arg:x,ratio:d0: arg:f:b0:init=0 %s exp:b0=0;d0=%s' % (A.argv_tok(w), c_hex(v)))
+    n += len(cases)
     guard = 0
     while len(cases) < n and guard < n * 30:
         guard += 1
